@@ -13,6 +13,8 @@ def gen_grid(g):
         return np.linspace(g["lo"], g["hi"], g["n"])
     if g["kind"] == "int":
         return np.arange(1, g["n"] + 1, dtype=float)
+    if g["kind"] == "lin0":                       # an FFT grid: linear and including the 0 Hz bin (frequency >= 0 is legal)
+        return np.linspace(0.0, g["hi"], g["n"])
     raise ValueError(g["kind"])
 
 
@@ -28,7 +30,17 @@ def draw_grid(rng):
     return {"kind": kind, "lo": lo, "hi": hi, "n": n}
 
 
+def _pos(f):
+    """Grid for evaluating the recipes: a 0 Hz bin is moved to half the first step (recipes work in log frequency)."""
+    f = np.asarray(f, dtype=float)
+    if f[0] <= 0:
+        f = f.copy()
+        f[0] = 0.5 * f[1]
+    return f
+
+
 def _bump(f, i0, a, w, base):
+    f = _pos(f)
     x = np.log(f / f[i0])
     return base + a * np.exp(-0.5 * (x / w) ** 2)
 
@@ -48,6 +60,7 @@ def gen_curve(f, s):
         v = _bump(f, i0, a, w, base)
     elif r == "twin":
         i1 = min(max(int(s.get("i1", n // 3)), 0), n - 1)
+        f = _pos(f)
         v = base + a * np.exp(-0.5 * (np.log(f / f[i0]) / w) ** 2) \
             + a * (1 + s.get("eps", 0.0)) * np.exp(-0.5 * (np.log(f / f[i1]) / w) ** 2)
     elif r == "plateau":
